@@ -276,18 +276,25 @@ SCENARIOS = [  # (name, observers exercised, parameters)
     ("actor", ["ActorCreateSimcall", "ActorJoinSimcall", "ActorSleepSimcall", "ActorExitSimcall"], lambda r: [r.randint(0, 3)]),
     ("random", ["RandomSimcall"], lambda r: [r.randint(-5, 5)]),
     ("messqueue", ["MessIputSimcall", "MessIgetSimcall"], lambda r: []),
+    # several activities ready at once, every outcome of the TestAny explored (reduction none is passed as a parameter)
+    ("testany2", ["ActivityTestanySimcall"], lambda r: ["--cfg=model-check/reduction:none"]),
 ]
 CLEAR_ERROR = re.compile(r"not supported by the model checker|Invalid transition type|UNIMPLEMENTED|not implemented", re.I)
 
 
 def run_scenario(prog, name, params):
+    import time
     cmd = [fw.SIMGRID_MC, prog, fw.SMALL_PLATFORM, name] + [str(p) for p in params] + ["--log=xbt_cfg.thresh:warning"]
-    for attempt in range(3):
-        rc, out = fw.sh(cmd, timeout=MC_TIMEOUT)
-        if rc not in (126, 127):      # binary being re-linked by a concurrent build: try again
-            break
-        import time
-        time.sleep(5)
+    rc, out = 127, ""
+    for attempt in range(4):
+        # a time-out is only believed after a second, three times longer, attempt (the machine may be very loaded)
+        rc, out = fw.sh(cmd, timeout=MC_TIMEOUT * (3 if attempt else 1))
+        if rc in (126, 127):          # binary being re-linked by a concurrent build: try again
+            time.sleep(5)
+            continue
+        if rc == 124 and attempt == 0:
+            continue
+        break
     return rc, out, cmd
 
 
@@ -306,8 +313,12 @@ class Model:
         if lines and lines[-1] == "":
             lines.pop()
         if rc != 0 or len(lines) != len(cases):
-            raise fw.BuildError("model %s: rc %d, %d answers for %d cases: %s" % (fn, rc, len(lines), len(cases), se[-500:]))
+            # e.g. stack overflow of the unary element count when a broken table makes the decoder read garbage
+            self.crashed = "model %s: rc %d, %d answers for %d cases: %s" % (fn, rc, len(lines), len(cases), se[-300:])
+            return [[0] for _ in cases]
         return [[int(t) for t in l.split()] for l in lines]
+
+    crashed = None
 
 
 def run(ctx):
@@ -373,7 +384,7 @@ def run(ctx):
                 rc, out, cmd = run_scenario(prog, name, pg(ctx.rng))
                 if rc == 124 or (rc != 0 and not CLEAR_ERROR.search(out)):
                     ctx.fail("seq-mismatch-%s-%s" % (o, spec.names[t]),
-                             what + "; simgrid-mc on scenario '%s' %s" % (name, "hangs (killed after %ds)" % MC_TIMEOUT if rc == 124 else "ends with rc=%d: %s" % (rc, out[-300:])),
+                             what + "; simgrid-mc on scenario '%s' %s" % (name, "hangs (killed after %ds)" % (3 * MC_TIMEOUT) if rc == 124 else "ends with rc=%d: %s" % (rc, out[-300:])),
                              {"kind": "scenario", "scenario": name, "params": [], "observer": o, "tag": spec.names[t]})
                     confirmed = True
             if not confirmed:
@@ -579,12 +590,19 @@ def run(ctx):
         case = {"kind": "scenario", "scenario": name, "params": params}
         ctx.case(("scenario", name, tuple(params)), states > 1, {"scenario": name, "params": params, "rc": rc, "states": states})
         if rc == 124:
-            ctx.fail("hang-" + name, "simgrid-mc does not finish on scenario '%s %s' within %ds: %s" % (name, params, MC_TIMEOUT, out[-300:]), case)
+            ctx.fail("hang-" + name, "simgrid-mc does not finish on scenario '%s %s' within %ds: %s" % (name, params, 3 * MC_TIMEOUT, out[-300:]), case)
+        elif rc != 0 and "std::out_of_range" in out and "dispatch_depends" in out and name.startswith("testany"):
+            ctx.fail("testany-none-outcome-crashes-checker",
+                     "simgrid-mc aborts with an uncaught std::out_of_range in Transition::dispatch_depends on scenario '%s %s': "
+                     "TestAnyTransition::get_current_transition() indexes its sub-transitions with times_considered, whose last value "
+                     "means 'no activity completed'" % (name, params), case)
         elif rc != 0 and not CLEAR_ERROR.search(out):
             ctx.fail("unclear-error-" + name, "simgrid-mc ends with rc=%d and no clear message on scenario '%s %s': %s" % (rc, name, params, out[-400:]), case)
         elif rc == 0 and states == 0:
             ctx.mismatch("scenario-output", "no exploration summary for '%s': %s" % (name, out[-300:]), case)
     lap("scenarios")
+    if model.crashed:
+        ctx.mismatch("extracted model", model.crashed)
     ctx.cov["input_distribution"] = dist
     ctx.assumptions += ["application and checker run on the same machine (same endianness, same sizeof), as simgrid-mc requires",
                         "actor ids carried as aid_t are -1 or below max_threads-1 = 31 (larger ones make the checker raise AidCannotBeAboveMaxThreads, a clear error)",
